@@ -4,7 +4,7 @@ Require Import Floats.SpecFloat.
 Require Import Reals List ZArith Lia Lra Bool.
 From Flocq Require Import Core BinarySingleNaN.
 From Dasp Require Import Base.Res Base.Float Signal.Converter Signal.ConvNumR Signal.ConvNumF
-  Signal.ConverterProofs Signal.ConverterIEEE Signal.ConverterRun.
+  Signal.ConverterProofs Signal.ConverterIEEE Signal.ConverterDyadic Signal.ConverterRun.
 Import ListNotations.
 
 (* a ratio sequence with a step > 1 (several pulls), a step < 1 (no pull) and fuel 5 *)
@@ -32,6 +32,11 @@ Qed.
 Example ex_loop_hyp : let v := F64.div (F64.of_Z 5) (F64.of_Z 2) in
   is_finite v = true /\ (0 <= B2R v < bpow radix2 53)%R.
 Proof. cbn zeta. split; [reflexivity|]. vm_compute. lra. Qed.
+
+(* dyadic: accumulator 2.5 = 10/4 and ratio 0.75 = 3/4 *)
+Example ex_dyadic : dyadic 2 10 (B2R (F64.div (F64.of_Z 5) (F64.of_Z 2))) /\
+                    dyadic 2 3 (B2R (F64.div (F64.of_Z 3) (F64.of_Z 4))).
+Proof. unfold dyadic. split; vm_compute; lra. Qed.
 
 (* the doc-test of Signal::scale_hz: [0, 1, 0, -1] at 0.5 with Linear gives
    0, .5, 1, .5, 0, -.5, -1, -.5 (f64 bit patterns) *)
